@@ -283,6 +283,7 @@ func runRSInner(c RSCase, rec *h.Rec) error {
 
 	if norm.Cmp(bound) > 0 {
 		key := fmt.Sprintf("C04:ringswitch:%s:noise-above-bound", c.Dir)
+		generic := key
 		if c.Dirty {
 			key = fmt.Sprintf("C04:ringswitch:%s:stale-output:noise-above-bound", c.Dir)
 			if c.Dir == "up" && !isNTT {
@@ -298,6 +299,9 @@ func runRSInner(c RSCase, rec *h.Rec) error {
 		}
 		msg := fmt.Sprintf("|Dec(out) - expected|_inf = 2^%d > bound 2^%d (log2 Q = %d, N=%d -> %s, n=%d, key=%+v, ct level %d)",
 			norm.BitLen(), bound.BitLen(), Q.BitLen(), N, c.Dir, n, c.Key, lvl)
+		if !h.IsKnown(key) {
+			key = generic // the class of a repaired finding is not special any more: report under the call site's own key
+		}
 		if rec.Known(key, msg) {
 			rec.Class("known=" + key)
 			return nil
